@@ -9,6 +9,7 @@ import (
 	"net/url"
 	"sort"
 	"strings"
+	"sync"
 
 	"github.com/gookit/rux"
 )
@@ -45,8 +46,11 @@ func (q Req) String() string { return q.Method + " " + q.Path }
 // probe, HEAD->GET fallback.
 var Kinds = []Req{
 	{"GET", "/a"}, {"GET", "/b"}, {"GET", "/u/1"}, {"GET", "/u/2"}, {"GET", "/k/y"},
-	{"GET", "/zz/q"}, {"POST", "/a"}, {"HEAD", "/u/1"}, {"POST", "/u/1"}, {"GET", "/g/s"}, {"POST", "/k/y"},
+	{"GET", "/zz/q"}, {"POST", "/a"}, {"HEAD", "/u/1"}, {"POST", "/u/1"}, {"GET", "/g/s"}, {"POST", "/k/y"}, {"GET", "/cp/7"},
 }
+
+// kept holds, per request, the Copy() of the context its handler kept beyond the request
+var kept sync.Map
 
 // Yield is called by the harness handlers at entry and exit (a scheduling
 // point under the controlled scheduler, nothing in the free-running pass).
@@ -125,6 +129,14 @@ func Build(s Shape) *rux.Router {
 		r.Group("/g", func() { route("/s", "GS", "GET") })
 	}
 	// a panicking route and a route that re-dispatches with HandleContext (used as sequential history)
+	// a handler that keeps a copy of its context for later (a background job would)
+	r.GET("/cp/{id}", func(c *rux.Context) {
+		Yield()
+		c.Set("user", "u"+c.Param("id"))
+		kept.Store(c.Req, c.Copy())
+		c.WriteString("[CP " + c.Param("id") + "]")
+		Yield()
+	})
 	route("/boom", "BOOM", "GET")
 	r.GET("/boom/now", func(c *rux.Context) { panic("boom") })
 	r.GET("/redir", func(c *rux.Context) {
@@ -178,7 +190,14 @@ func Serve(r http.Handler, q Req) (obs string) {
 		}
 	}()
 	r.ServeHTTP(w, req)
-	return fmt.Sprintf("%d wh=%d allow=%q %q", w.Code, w.NWH, w.H.Get("Allow"), w.Body)
+	obs = fmt.Sprintf("%d wh=%d allow=%q %q", w.Code, w.NWH, w.H.Get("Allow"), w.Body)
+	if cp, ok := kept.LoadAndDelete(req); ok {
+		// the request is over and its pooled context may already serve someone else: the copy must still read the same
+		Yield()
+		c := cp.(*rux.Context)
+		obs += fmt.Sprintf(" kept-copy{user=%v path=%v id=%s}", c.SafeGet("user"), c.SafeGet(rux.CTXCurrentRoutePath), c.Param("id"))
+	}
+	return obs
 }
 
 // QuickShapes / ThoroughShapes
